@@ -537,7 +537,18 @@ func (a *Analyzer) checkExprArity(arg ast.BaseTerm) error {
 
 func (a *Analyzer) checkFunctions(clause ast.Clause) error {
 	// Just check arity. Types left for later.
+	for _, arg := range clause.Head.Args {
+		if err := checkKeyValueArgs(arg); err != nil {
+			return err
+		}
+	}
 	for _, p := range clause.Premises {
+		if tl, ok := p.(ast.TemporalLiteral); ok {
+			p = tl.Literal
+		}
+		if ta, ok := p.(ast.TemporalAtom); ok {
+			p = ta.Atom
+		}
 		switch x := p.(type) {
 		case ast.Atom:
 			for _, arg := range x.Args {
@@ -575,6 +586,24 @@ func (a *Analyzer) checkFunctions(clause ast.Clause) error {
 		if err := a.checkExprArity(stmt.Fn); err != nil {
 			return err
 		}
+	}
+	return nil
+}
+
+// checkKeyValueArgs checks that map and struct expressions, which list keys and
+// values alternately, have an even number of arguments.
+func checkKeyValueArgs(arg ast.BaseTerm) error {
+	x, ok := arg.(ast.ApplyFn)
+	if !ok {
+		return nil
+	}
+	for _, arg := range x.Args {
+		if err := checkKeyValueArgs(arg); err != nil {
+			return err
+		}
+	}
+	if (x.Function.Symbol == symbols.Map.Symbol || x.Function.Symbol == symbols.Struct.Symbol) && len(x.Args)%2 != 0 {
+		return fmt.Errorf("expect even number of arguments for %s", x)
 	}
 	return nil
 }
